@@ -176,6 +176,12 @@ CHILDREN = {
     'Subscript': lambda: ast.Subscript(value=N('p'), slice=N('q'), ctx=ast.Load()),
     'Name': lambda: N('p'),
     'Constant': lambda: ast.Constant(value=7),
+    # the compiler folds `-2` into one constant: a negative number prints with a leading minus sign and groups like a unary minus expression
+    'NegInt': lambda: ast.Constant(value=-7),
+    'NegFloat': lambda: ast.Constant(value=-2.5),
+    'Float': lambda: ast.Constant(value=2.5),
+    'Str': lambda: ast.Constant(value='s'),
+    'NoneConst': lambda: ast.Constant(value=None),
     'List': lambda: ast.List(elts=[N('p')], ctx=ast.Load()),
     'Tuple': lambda: ast.Tuple(elts=[N('p'), N('q')], ctx=ast.Load()),
     'Dict': lambda: ast.Dict(keys=[N('p')], values=[N('q')]),
@@ -226,14 +232,91 @@ def kind_of(node):
 def dump(t): return ast.dump(t, annotate_fields=True, include_attributes=False)
 
 
+class _FoldNeg(ast.NodeTransformer):
+    """-<number> and the folded constant are the same value: compare trees modulo this folding"""
+    def visit_UnaryOp(self, node):
+        self.generic_visit(node)
+        if isinstance(node.op, ast.USub) and isinstance(node.operand, ast.Constant) and type(node.operand.value) in (int, float, complex):
+            return ast.Constant(value=-node.operand.value)
+        return node
+
+
 def needs_parens(build, child):
-    """grammar ground truth: print the tree with the child un-parenthesised, re-parse, compare"""
+    """grammar ground truth: print the tree with the child un-parenthesised, re-parse, compare (modulo folding of negated numeric literals)"""
     want = ast.fix_missing_locations(ast.Expression(body=build(child)))
     holder = ast.fix_missing_locations(ast.Expression(body=build(N('__C__'))))
     text = ast.unparse(holder).replace('__C__', ast.unparse(child))
     try: got = ast.parse(text, mode='eval')
     except SyntaxError: return True, text
-    return dump(got) != dump(want), text
+    return dump(_FoldNeg().visit(got)) != dump(_FoldNeg().visit(copy.deepcopy(want))), text
+
+
+def own_priority(table, child):
+    """the priority pony gives to `child`: the handler's decorator argument, or what the handler assigns to node.priority -- when the
+    assigned value depends on the node (postConstant: a negative number), the handler's statements are interpreted for this child with a
+    small evaluator (names: the node parameter, locals, isinstance/repr/str/type and the numeric types)"""
+    dec, own, f = table[kind_of(child)]
+    if dec is not None: return dec
+    param = f.params[1] if len(f.params) > 1 else 'node'
+    env = {param: child}
+    SAFE = {'isinstance': isinstance, 'repr': repr, 'str': str, 'type': type, 'int': int, 'float': float, 'complex': complex, 'bool': bool, 'len': len, 'abs': abs}
+    class Unknown(Exception): pass
+    def ev(e):
+        if isinstance(e, ast.Constant): return e.value
+        if isinstance(e, ast.Name):
+            if e.id in env: return env[e.id]
+            if e.id in SAFE: return SAFE[e.id]
+            raise Unknown
+        if isinstance(e, ast.Attribute):
+            b = ev(e.value)
+            if isinstance(b, ast.AST) and e.attr in type(b)._fields: return getattr(b, e.attr)
+            raise Unknown
+        if isinstance(e, ast.Tuple): return tuple(ev(x) for x in e.elts)
+        if isinstance(e, ast.BoolOp):
+            r = None
+            for v in e.values:
+                r = ev(v)
+                if isinstance(e.op, ast.And) and not r: return r
+                if isinstance(e.op, ast.Or) and r: return r
+            return r
+        if isinstance(e, ast.UnaryOp) and isinstance(e.op, ast.Not): return not ev(e.operand)
+        if isinstance(e, ast.IfExp): return ev(e.body) if ev(e.test) else ev(e.orelse)
+        if isinstance(e, ast.Compare) and len(e.ops) == 1:
+            l, r = ev(e.left), ev(e.comparators[0]); op = e.ops[0]
+            try:
+                if isinstance(op, ast.Lt): return l < r
+                if isinstance(op, ast.LtE): return l <= r
+                if isinstance(op, ast.Gt): return l > r
+                if isinstance(op, ast.GtE): return l >= r
+                if isinstance(op, ast.Eq): return l == r
+                if isinstance(op, ast.NotEq): return l != r
+                if isinstance(op, ast.Is): return l is r
+                if isinstance(op, ast.IsNot): return l is not r
+                if isinstance(op, ast.In): return l in r
+                if isinstance(op, ast.NotIn): return l not in r
+            except TypeError: raise Unknown
+        if isinstance(e, ast.Call) and not e.keywords:
+            if isinstance(e.func, ast.Name) and e.func.id in SAFE: return SAFE[e.func.id](*[ev(a) for a in e.args])
+            if isinstance(e.func, ast.Attribute) and e.func.attr in ('startswith', 'endswith'):
+                b = ev(e.func.value)
+                if isinstance(b, str): return getattr(b, e.func.attr)(*[ev(a) for a in e.args])
+        raise Unknown
+    result = [None]
+    def interp(stmts):
+        for st in stmts:
+            if isinstance(st, ast.Assign) and len(st.targets) == 1:
+                t = st.targets[0]
+                if isinstance(t, ast.Attribute) and t.attr == 'priority' and dotted(t.value) == param: result[0] = ev(st.value)
+                elif isinstance(t, ast.Name):
+                    try: env[t.id] = ev(st.value)
+                    except Unknown: env.pop(t.id, None)
+            elif isinstance(st, ast.If):
+                if any(isinstance(x, ast.Attribute) and x.attr == 'priority' and isinstance(x.ctx, ast.Store) for b in (st.body, st.orelse) for y in b for x in ast.walk(y)):
+                    interp(st.body if ev(st.test) else st.orelse)
+            elif isinstance(st, ast.Return): return
+    try: interp(f.node.body)
+    except Unknown: return own
+    return result[0] if isinstance(result[0], int) else own
 
 
 def run(ctx):
@@ -262,17 +345,17 @@ def run(ctx):
             uses_helper = helper is not None and any(dotted(c.func) == 'base_src' and c.args and isinstance(c.args[0], ast.Attribute) and c.args[0].attr == fld
                                                      for c in calls_in(pfn.node))
             if not direct: pony = False
-            elif uses_helper: pony = helper(child, table[hk][1])
+            elif uses_helper: pony = helper(child, own_priority(table, child))
             elif pdec is None: pony = False
             else:
                 i = [j for j, k in enumerate(kids) if k is child][0]
-                pony = bool(ev(cond, table[hk][1], pdec, i))
+                pony = bool(ev(cond, own_priority(table, child), pdec, i))
             ok = pony or not need
             ob = ctx.ob('C04-GROUP.child-parenthesised-when-grammar-requires', pfn, '%s.%s <- %s' % (plabel, pos, ckind), ok,
                         '' if ok else 'a %s node in position %s of a %s node needs parentheses (without them the text `%s` parses to a different tree or not at all), '
                         'but pony\'s policy does not add them: %s handler %s, child priority %s' % (
                             ckind, pos, plabel, text, plabel, ('is @priority(%s)' % pdec) if pdec is not None else 'is not decorated with @priority and never parenthesises',
-                            table[hk][1]),
+                            own_priority(table, child)),
                         node=pfn.node, nontrivial=need, expected='parentheses around the child')
             if not ok: viol += 1
     ctx.count('C04-GROUP: (parent, position, child) pairs', n)
@@ -465,6 +548,8 @@ def run(ctx):
 
 
 MUTANTS = [
+    dict(id='C04-neg', file='pony/orm/asttranslation.py', fn='PythonTranslator.postConstant', old="        node.priority = 4 if isinstance(value, (int, float, complex)) and repr(value).startswith('-') else 1", new="        node.priority = 1", expect='C04-GROUP'),
+    dict(id='C04-neg2', file='pony/orm/asttranslation.py', fn='PythonTranslator.postConstant', old="        node.priority = 4 if isinstance(value, (int, float, complex)) and repr(value).startswith('-') else 1", new="        node.priority = 4 if type(value) in (int, float, complex) and value < 0 else 1", expect='C04-GROUP', benign=True),
     dict(id='C04-m1', file='pony/orm/asttranslation.py', fn='priority',
          old="            for child in get_child_nodes(node):\n                if getattr(child, 'priority', 0) >= p:",
          new="            for i, child in enumerate(get_child_nodes(node)):\n                child_priority = getattr(child, 'priority', 0)\n                if child_priority > p or child_priority == p and i:", expect='C04-GROUP'),
